@@ -4181,6 +4181,8 @@ async fn handle_connected_state_no_dtls(
                 let _ = inner.peer_state.send(PeerConnectionState::Connected);
                 let grace = inner.config.ice_disconnect_grace;
                 drop(inner);
+                // `pc_temp` holds a second strong reference; see handle_connected_state.
+                drop(pc_temp);
 
                 let (grace_tx, mut grace_rx) = tokio::sync::mpsc::unbounded_channel::<u64>();
                 let mut disconnect_epoch: u64 = 0;
@@ -4290,15 +4292,23 @@ async fn handle_connected_state(
                             let dtls_guard = inner.dtls_transport.lock();
                             (*dtls_guard).as_ref().map(|dtls| dtls.subscribe_state())
                         };
+                        let grace = inner.config.ice_disconnect_grace;
+                        // Only weak references may live across the connected-state
+                        // loop below. A strong one keeps the whole connection (tasks,
+                        // sockets) alive after the application dropped its last
+                        // handle, so `Drop for PeerConnectionInner` would never run.
+                        drop(inner);
+                        drop(pc_temp);
 
                         if let Some(mut dtls_rx) = dtls_state_rx {
-                            let grace = inner.config.ice_disconnect_grace;
                             let (grace_tx, mut grace_rx) = tokio::sync::mpsc::unbounded_channel::<u64>();
                             let mut disconnect_epoch: u64 = 0;
                             loop {
                                 tokio::select! {
                                     _ = &mut rtcp_loop => {
-                                        propagate_sctp_close_reason(&inner);
+                                        if let Some(inner) = inner_weak.upgrade() {
+                                            propagate_sctp_close_reason(&inner);
+                                        }
                                         break;
                                     }
                                     res = ice_state_rx.changed() => {
@@ -4309,7 +4319,9 @@ async fn handle_connected_state(
                                         }
                                         match new_state {
                                             crate::transports::ice::IceTransportState::Disconnected => {
-                                                let _ = inner.peer_state.send(PeerConnectionState::Disconnected);
+                                                if let Some(inner) = inner_weak.upgrade() {
+                                                    let _ = inner.peer_state.send(PeerConnectionState::Disconnected);
+                                                }
                                                 let _ = ice_connection_state_tx.send(IceConnectionState::Disconnected);
                                                 let epoch = disconnect_epoch;
                                                 let tx = grace_tx.clone();
@@ -4325,7 +4337,9 @@ async fn handle_connected_state(
                                             crate::transports::ice::IceTransportState::Connected
                                             | crate::transports::ice::IceTransportState::Completed => {
                                                 disconnect_epoch += 1;
-                                                let _ = inner.peer_state.send(PeerConnectionState::Connected);
+                                                if let Some(inner) = inner_weak.upgrade() {
+                                                    let _ = inner.peer_state.send(PeerConnectionState::Connected);
+                                                }
                                                 let _ = ice_connection_state_tx.send(IceConnectionState::Connected);
                                                 debug!("ICE recovered (epoch {}), grace cancelled", disconnect_epoch);
                                             }
@@ -4342,10 +4356,12 @@ async fn handle_connected_state(
                                                 } else {
                                                     DisconnectReason::DtlsClosed
                                                 };
-                                                let _ = inner.disconnect_reason.send_if_modified(|cur| {
-                                                    if cur.is_none() { *cur = Some(reason); true } else { false }
-                                                });
-                                                let _ = inner.peer_state.send(PeerConnectionState::Disconnected);
+                                                if let Some(inner) = inner_weak.upgrade() {
+                                                    let _ = inner.disconnect_reason.send_if_modified(|cur| {
+                                                        if cur.is_none() { *cur = Some(reason); true } else { false }
+                                                    });
+                                                    let _ = inner.peer_state.send(PeerConnectionState::Disconnected);
+                                                }
                                                 let _ = ice_connection_state_tx.send(IceConnectionState::Disconnected);
                                                 return false;
                                             }
@@ -4355,19 +4371,21 @@ async fn handle_connected_state(
                                     }
                                     Some(epoch) = grace_rx.recv() => {
                                         if epoch == disconnect_epoch {
-                                            let _ = inner.disconnect_reason.send_if_modified(|cur| {
-                                                if cur.is_none() {
-                                                    *cur = Some(DisconnectReason::IceDisconnected);
-                                                    true
-                                                } else {
-                                                    false
+                                            if let Some(inner) = inner_weak.upgrade() {
+                                                let _ = inner.disconnect_reason.send_if_modified(|cur| {
+                                                    if cur.is_none() {
+                                                        *cur = Some(DisconnectReason::IceDisconnected);
+                                                        true
+                                                    } else {
+                                                        false
+                                                    }
+                                                });
+                                                let _ = inner.peer_state.send(PeerConnectionState::Disconnected);
+                                                if let Some(sctp) = inner.sctp_transport.lock().as_ref() {
+                                                    sctp.close();
                                                 }
-                                            });
-                                            let _ = inner.peer_state.send(PeerConnectionState::Disconnected);
-                                            let _ = ice_connection_state_tx.send(IceConnectionState::Disconnected);
-                                            if let Some(sctp) = inner.sctp_transport.lock().as_ref() {
-                                                sctp.close();
                                             }
+                                            let _ = ice_connection_state_tx.send(IceConnectionState::Disconnected);
                                             debug!("ICE disconnect grace expired, cycling transport");
                                             return true;
                                         }
@@ -4375,13 +4393,14 @@ async fn handle_connected_state(
                                 }
                             }
                         } else {
-                            let grace = inner.config.ice_disconnect_grace;
                             let (grace_tx, mut grace_rx) = tokio::sync::mpsc::unbounded_channel::<u64>();
                             let mut disconnect_epoch: u64 = 0;
                             loop {
                                 tokio::select! {
                                     _ = &mut rtcp_loop => {
-                                        propagate_sctp_close_reason(&inner);
+                                        if let Some(inner) = inner_weak.upgrade() {
+                                            propagate_sctp_close_reason(&inner);
+                                        }
                                         break;
                                     }
                                     res = ice_state_rx.changed() => {
@@ -4392,7 +4411,9 @@ async fn handle_connected_state(
                                         }
                                         match new_state {
                                             crate::transports::ice::IceTransportState::Disconnected => {
-                                                let _ = inner.peer_state.send(PeerConnectionState::Disconnected);
+                                                if let Some(inner) = inner_weak.upgrade() {
+                                                    let _ = inner.peer_state.send(PeerConnectionState::Disconnected);
+                                                }
                                                 let _ = ice_connection_state_tx.send(IceConnectionState::Disconnected);
                                                 let epoch = disconnect_epoch;
                                                 let tx = grace_tx.clone();
@@ -4408,7 +4429,9 @@ async fn handle_connected_state(
                                             crate::transports::ice::IceTransportState::Connected
                                             | crate::transports::ice::IceTransportState::Completed => {
                                                 disconnect_epoch += 1;
-                                                let _ = inner.peer_state.send(PeerConnectionState::Connected);
+                                                if let Some(inner) = inner_weak.upgrade() {
+                                                    let _ = inner.peer_state.send(PeerConnectionState::Connected);
+                                                }
                                                 let _ = ice_connection_state_tx.send(IceConnectionState::Connected);
                                                 debug!("ICE recovered (epoch {}), grace cancelled", disconnect_epoch);
                                             }
@@ -4417,19 +4440,21 @@ async fn handle_connected_state(
                                     }
                                     Some(epoch) = grace_rx.recv() => {
                                         if epoch == disconnect_epoch {
-                                            let _ = inner.disconnect_reason.send_if_modified(|cur| {
-                                                if cur.is_none() {
-                                                    *cur = Some(DisconnectReason::IceDisconnected);
-                                                    true
-                                                } else {
-                                                    false
+                                            if let Some(inner) = inner_weak.upgrade() {
+                                                let _ = inner.disconnect_reason.send_if_modified(|cur| {
+                                                    if cur.is_none() {
+                                                        *cur = Some(DisconnectReason::IceDisconnected);
+                                                        true
+                                                    } else {
+                                                        false
+                                                    }
+                                                });
+                                                let _ = inner.peer_state.send(PeerConnectionState::Disconnected);
+                                                if let Some(sctp) = inner.sctp_transport.lock().as_ref() {
+                                                    sctp.close();
                                                 }
-                                            });
-                                            let _ = inner.peer_state.send(PeerConnectionState::Disconnected);
-                                            let _ = ice_connection_state_tx.send(IceConnectionState::Disconnected);
-                                            if let Some(sctp) = inner.sctp_transport.lock().as_ref() {
-                                                sctp.close();
                                             }
+                                            let _ = ice_connection_state_tx.send(IceConnectionState::Disconnected);
                                             debug!("ICE disconnect grace expired, cycling transport");
                                             return true;
                                         }
